@@ -17,7 +17,7 @@ EXTRA = {
  "C12": " Also: every failure in the parse chain (decoder, conversions, file read) is returned, so a file that fails to parse can never be registered. A file is registered only with the configuration ParseData accepted for it (R12.6).",
  "C13": " Also: the channel the burst is addressed to (used unmasked) is within 0..15: every store to Device.channel preserves it and the parser establishes defaults.channel in 1..16. Every message of the burst is a fresh 3-byte value (R13.6) and reaches the port once, unaltered (R13.7).",
  "C15": " Also: a relay that parks a received message in a variable and writes it from a later select iteration must have its receive case gated. Constructors return fresh values (R15.6): the transport queues references.",
- "C17": " R17.1 is decided on the paths of one iteration of the MIDI-input loop under representative (type, velocity) assumptions, and the map written must be re-read from the Device field inside the critical section (Panic replaces it). R17.7 decides the layer precedence of the painted frame (unavailable < pitch-class < channel colour < external(current channel); pitch-class < active; all before UpdateLEDs) from the order of the classified LED write sites in the refresh loop body.",
+ "C17": " R17.1 is decided on the paths of one iteration of the MIDI-input loop under representative (type, velocity) assumptions, and the map written must be re-read from the Device field inside the critical section (Panic replaces it). R17.7 decides the layer precedence of the painted frame (unavailable < pitch-class < channel colour < external(current channel); pitch-class < active; all before UpdateLEDs) from the order of the classified LED write sites in the refresh loop body; R17.9: every refresh iteration sends the frame it computed unless a comparison of that frame decides the skip.",
  "C18": " Also: every file of the shipped hidi-config tree is matched by a //go:embed pattern of the template (go/packages EmbedFiles vs the source tree).",
  "C19": " The consumer is decided on paths: every path that takes the change-notification case cancels the per-cycle context before waiting again or returning. The loader only reads (R19.6): it never creates directories the watcher could not have been watching.",
  "C20": " Also: nothing reachable from grouping/classification reads package-level state that the program modifies (caches, counters).",
